@@ -42,94 +42,97 @@ def run(ctx):
     N = ctx.n(160, 2500)
     jobs = []
     for ci in range(N):
-        kind = str(rng.choice(['heal', 'heal', 'break', 'stitch', 'stitch']))
-        if kind in ('heal', 'break'):
-            k = int(rng.integers(2, 8))
-            f = F.gen_forest(rng, k + 1, ctx.n(35, 90), roots=k, lattice=False, zero_edges=False)
-            ids = f['ids']
-            # spread the fragments out so that inter-fragment distances differ
-            cc = comps(ids, f['parents'])
-            off = {r: rng.normal(size=3) * rng.choice([5, 30, 80]) for r in cc}
-            node_root = {i: r for r, ns in cc.items() for i in ns}
-            f['xyz'] = [tuple(float(v) for v in np.array(p, dtype=float) + off[node_root[i]]) for i, p in zip(ids, f['xyz'])]
-            pos = {i: np.array(p, dtype=float) for i, p in zip(ids, f['xyz'])}
-            x = F.mk_neuron(f)
-            T = '(mk %s)' % term(list(zip(ids, f['parents'])))
-            nt = len(cc) >= 3
-            if kind == 'break':
-                st, res = guarded(lambda: list(navis.break_fragments(x)))
-                desc = dict(forest=f, op='break_fragments')
-                jobs.append(dict(desc=desc, nt=nt, key=(str(ids), str(f['parents']), 'break'), exprs=['fragments %s' % T],
-                                 cmp=_cmp_break(st, res, f)))
-                continue
-            method = str(rng.choice(['ALL', 'LEAFS']))
-            max_dist = None if rng.random() < 0.5 else float(rng.choice([10, 40, 120]))
-            min_size = None if rng.random() < 0.7 else int(rng.integers(2, 5))
-            use_mask = rng.random() < 0.25
-            mask = sorted(int(v) for v in rng.choice(ids, size=max(2, len(ids) // 2), replace=False)) if use_mask else None
-            drop = bool(rng.random() < 0.2)
-            p = dict(method=method, max_dist=max_dist, min_size=min_size, mask=mask, drop_disc=drop)
-            desc = dict(forest=f, op='heal', params=p)
-            marg = None if mask is None else (np.array(mask) if rng.random() < 0.5 else np.isin(x.nodes.node_id.values, mask))
-            types = dict(zip((int(i) for i in x.nodes.node_id.values), x.nodes.type.values))
-            st, res = guarded(navis.heal_skeleton, x, method=method, max_dist=max_dist, min_size=min_size, mask=marg, drop_disc=drop, inplace=bool(rng.integers(2)))
-            # candidate edges between fragments over the allowed nodes (brute force)
-            allowed = {}
-            for r, ns in cc.items():
-                if min_size is not None and len(ns) < min_size:
+        be = str(rng.choice(['fastcore', 'fastcore', 'fastcore', 'igraph', 'nx']))
+        ctx.count('backend:' + be)
+        with F.backend(be):
+            kind = str(rng.choice(['heal', 'heal', 'break', 'stitch', 'stitch']))
+            if kind in ('heal', 'break'):
+                k = int(rng.integers(2, 8))
+                f = F.gen_forest(rng, k + 1, ctx.n(35, 90), roots=k, lattice=False, zero_edges=False)
+                ids = f['ids']
+                # spread the fragments out so that inter-fragment distances differ
+                cc = comps(ids, f['parents'])
+                off = {r: rng.normal(size=3) * rng.choice([5, 30, 80]) for r in cc}
+                node_root = {i: r for r, ns in cc.items() for i in ns}
+                f['xyz'] = [tuple(float(v) for v in np.array(p, dtype=float) + off[node_root[i]]) for i, p in zip(ids, f['xyz'])]
+                pos = {i: np.array(p, dtype=float) for i, p in zip(ids, f['xyz'])}
+                x = F.mk_neuron(f)
+                T = '(mk %s)' % term(list(zip(ids, f['parents'])))
+                nt = len(cc) >= 3
+                if kind == 'break':
+                    st, res = guarded(lambda: list(navis.break_fragments(x)))
+                    desc = dict(forest=f, op='break_fragments', backend=be)
+                    jobs.append(dict(desc=desc, nt=nt, key=(str(ids), str(f['parents']), 'break'), exprs=['fragments %s' % T],
+                                     cmp=_cmp_break(st, res, f)))
                     continue
-                a = [i for i in ns if (method == 'ALL' or types[i] in ('end', 'root')) and (mask is None or i in set(mask))]
-                if a:
-                    allowed[r] = a
-            cands = []
-            for ra, rb in itertools.combinations(sorted(allowed), 2):
-                A = np.array([pos[i] for i in allowed[ra]]); B = np.array([pos[i] for i in allowed[rb]])
-                D = np.linalg.norm(A[:, None, :] - B[None, :, :], axis=2)
-                ia, ib = np.unravel_index(np.argmin(D), D.shape)
-                d = float(D[ia, ib])
-                if max_dist is not None and d >= max_dist:
-                    continue
-                cands.append((ra, rb, allowed[ra][ia], allowed[rb][ib], d))
-            cands.sort(key=lambda c: c[4])
-            cterm = '[' + '; '.join('{| fa := %s; fb := %s; na := %s; nb := %s; cd := %s |}' % (term(a), term(b), term(c), term(d), term(Fraction(e)))
-                                    for a, b, c, d, e in cands) + ']'
-            added = None
-            if st == 'ok':
-                new_und = und(res.nodes.node_id.values, res.nodes.parent_id.values)
-                added = sorted(tuple(sorted(e)) for e in new_und - und(ids, f['parents']))
-            aterm = '[' + '; '.join('{| fa := 0; fb := 0; na := %s; nb := %s; cd := 0%%Q |}' % (term(a), term(b)) for a, b in (added or [])) + ']'
-            jobs.append(dict(desc=desc, nt=nt, key=(str(ids), str(f['xyz']), 'heal', str(p)),
-                             exprs=['let r := kruskal (uf_init %s) %s in (qout (total_len (fst r)), length (fst r))' % (term(sorted(allowed)), cterm),
-                                    '(length (roots (heal %s %s)), wfb (heal %s %s))' % (T, aterm, T, aterm)],
-                             cmp=_cmp_heal(st, res, f, pos, cc, cands, p, added)))
-        else:
-            m = int(rng.integers(2, 5))
-            fs = [F.gen_forest(rng, 1, 14, roots=1, labelling=str(rng.choice(['seq', 'seq', 'sparse', 'sparse0'])), lattice=False, zero_edges=False) for _ in range(m)]
-            for j, f in enumerate(fs):
-                offv = rng.normal(size=3) * 40
-                f['xyz'] = [tuple(float(v) for v in np.array(p, dtype=float) + offv) for p in f['xyz']]
-            ns = []
-            for j, f in enumerate(fs):
-                cn = F.gen_connectors(rng, f, 4)
-                tg = {'t%d' % (j % 2): [int(v) for v in rng.choice(f['ids'], size=min(2, len(f['ids'])), replace=False)]} if rng.random() < 0.6 else None
-                ns.append(F.mk_neuron(f, name='n%d' % j, nid=j + 1, connectors=cn, tags=tg))
-            method = str(rng.choice(['NONE', 'NONE', 'LEAFS', 'ALL']))
-            master = str(rng.choice(['FIRST', 'LARGEST']))
-            p = dict(method=method, master=master, combine=bool(method == 'NONE' and rng.random() < 0.5))
-            desc = dict(forests=fs, op='stitch', params=p)
-            snap = [dict(rows=F.table_of(n), conn=None if n.connectors is None else [(int(c), int(i)) for c, i in zip(n.connectors.connector_id.values, n.connectors.node_id.values)],
-                         tags={k: list(v) for k, v in (n.tags or {}).items()}) for n in ns]
-            if p['combine']:
-                st, res = guarded(navis.combine_neurons, *ns)
+                method = str(rng.choice(['ALL', 'LEAFS']))
+                max_dist = None if rng.random() < 0.5 else float(rng.choice([10, 40, 120]))
+                min_size = None if rng.random() < 0.7 else int(rng.integers(2, 5))
+                use_mask = rng.random() < 0.25
+                mask = sorted(int(v) for v in rng.choice(ids, size=max(2, len(ids) // 2), replace=False)) if use_mask else None
+                drop = bool(rng.random() < 0.2)
+                p = dict(method=method, max_dist=max_dist, min_size=min_size, mask=mask, drop_disc=drop)
+                desc = dict(forest=f, op='heal', params=p, backend=be)
+                marg = None if mask is None else (np.array(mask) if rng.random() < 0.5 else np.isin(x.nodes.node_id.values, mask))
+                types = dict(zip((int(i) for i in x.nodes.node_id.values), x.nodes.type.values))
+                st, res = guarded(navis.heal_skeleton, x, method=method, max_dist=max_dist, min_size=min_size, mask=marg, drop_disc=drop, inplace=bool(rng.integers(2)))
+                # candidate edges between fragments over the allowed nodes (brute force)
+                allowed = {}
+                for r, ns in cc.items():
+                    if min_size is not None and len(ns) < min_size:
+                        continue
+                    a = [i for i in ns if (method == 'ALL' or types[i] in ('end', 'root')) and (mask is None or i in set(mask))]
+                    if a:
+                        allowed[r] = a
+                cands = []
+                for ra, rb in itertools.combinations(sorted(allowed), 2):
+                    A = np.array([pos[i] for i in allowed[ra]]); B = np.array([pos[i] for i in allowed[rb]])
+                    D = np.linalg.norm(A[:, None, :] - B[None, :, :], axis=2)
+                    ia, ib = np.unravel_index(np.argmin(D), D.shape)
+                    d = float(D[ia, ib])
+                    if max_dist is not None and d >= max_dist:
+                        continue
+                    cands.append((ra, rb, allowed[ra][ia], allowed[rb][ib], d))
+                cands.sort(key=lambda c: c[4])
+                cterm = '[' + '; '.join('{| fa := %s; fb := %s; na := %s; nb := %s; cd := %s |}' % (term(a), term(b), term(c), term(d), term(Fraction(e)))
+                                        for a, b, c, d, e in cands) + ']'
+                added = None
+                if st == 'ok':
+                    new_und = und(res.nodes.node_id.values, res.nodes.parent_id.values)
+                    added = sorted(tuple(sorted(e)) for e in new_und - und(ids, f['parents']))
+                aterm = '[' + '; '.join('{| fa := 0; fb := 0; na := %s; nb := %s; cd := 0%%Q |}' % (term(a), term(b)) for a, b in (added or [])) + ']'
+                jobs.append(dict(desc=desc, nt=nt, key=(str(ids), str(f['xyz']), 'heal', str(p)),
+                                 exprs=['let r := kruskal (uf_init %s) %s in (qout (total_len (fst r)), length (fst r))' % (term(sorted(allowed)), cterm),
+                                        '(length (roots (heal %s %s)), wfb (heal %s %s))' % (T, aterm, T, aterm)],
+                                 cmp=_cmp_heal(st, res, f, pos, cc, cands, p, added)))
             else:
-                st, res = guarded(navis.stitch_skeletons, *ns, method=method, master=master)
-            st0, res0 = guarded(navis.stitch_skeletons, *ns, method='NONE', master='FIRST' if p['combine'] else master)
-            clash = len(set(i for f in fs for i in f['ids'])) < sum(len(f['ids']) for f in fs)
-            inputs = '[' + '; '.join('(mk %s)' % term([(a, b) for a, b, _ in s['rows']]) for s in snap) + ']'
-            out0 = '(mk %s)' % term([(a, b) for a, b, _ in F.table_of(res0)]) if st0 == 'ok' else '(mk [])'
-            jobs.append(dict(desc=desc, nt=clash or m >= 3, key=(str([f['ids'] for f in fs]), str([f['parents'] for f in fs]), 'stitch', str(p)),
-                             exprs=['stitch_okb %s %s' % (inputs, out0)],
-                             cmp=_cmp_stitch(st, res, st0, res0, snap, fs, p)))
+                m = int(rng.integers(2, 5))
+                fs = [F.gen_forest(rng, 1, 14, roots=1, labelling=str(rng.choice(['seq', 'seq', 'sparse', 'sparse0'])), lattice=False, zero_edges=False) for _ in range(m)]
+                for j, f in enumerate(fs):
+                    offv = rng.normal(size=3) * 40
+                    f['xyz'] = [tuple(float(v) for v in np.array(p, dtype=float) + offv) for p in f['xyz']]
+                ns = []
+                for j, f in enumerate(fs):
+                    cn = F.gen_connectors(rng, f, 4)
+                    tg = {'t%d' % (j % 2): [int(v) for v in rng.choice(f['ids'], size=min(2, len(f['ids'])), replace=False)]} if rng.random() < 0.6 else None
+                    ns.append(F.mk_neuron(f, name='n%d' % j, nid=j + 1, connectors=cn, tags=tg))
+                method = str(rng.choice(['NONE', 'NONE', 'LEAFS', 'ALL']))
+                master = str(rng.choice(['FIRST', 'LARGEST']))
+                p = dict(method=method, master=master, combine=bool(method == 'NONE' and rng.random() < 0.5))
+                desc = dict(forests=fs, op='stitch', params=p, backend=be)
+                snap = [dict(rows=F.table_of(n), conn=None if n.connectors is None else [(int(c), int(i)) for c, i in zip(n.connectors.connector_id.values, n.connectors.node_id.values)],
+                             tags={k: list(v) for k, v in (n.tags or {}).items()}) for n in ns]
+                if p['combine']:
+                    st, res = guarded(navis.combine_neurons, *ns)
+                else:
+                    st, res = guarded(navis.stitch_skeletons, *ns, method=method, master=master)
+                st0, res0 = guarded(navis.stitch_skeletons, *ns, method='NONE', master='FIRST' if p['combine'] else master)
+                clash = len(set(i for f in fs for i in f['ids'])) < sum(len(f['ids']) for f in fs)
+                inputs = '[' + '; '.join('(mk %s)' % term([(a, b) for a, b, _ in s['rows']]) for s in snap) + ']'
+                out0 = '(mk %s)' % term([(a, b) for a, b, _ in F.table_of(res0)]) if st0 == 'ok' else '(mk [])'
+                jobs.append(dict(desc=desc, nt=clash or m >= 3, key=(str([f['ids'] for f in fs]), str([f['parents'] for f in fs]), 'stitch', str(p)),
+                                 exprs=['stitch_okb %s %s' % (inputs, out0)],
+                                 cmp=_cmp_stitch(st, res, st0, res0, snap, fs, p)))
     flat = [e for j in jobs for e in j['exprs']]
     out = coqio.eval_terms('C11', ['model.Forest', 'model.Ops', 'model.Dist', 'model.Heal'], flat, shard=80)
     k = 0
